@@ -129,3 +129,47 @@ func dumpV2Tables(l *Loaded) {
 		}
 	}
 }
+
+func dumpDiffTable(l *Loaded) {
+	esc := l.Func("", "*nodeDB.extractStateChanges")
+	for i, af := range esc.AnonFuncs {
+		if len(af.Params) != 1 {
+			continue
+		}
+		for _, nonEmpty := range []bool{true, false} {
+			for _, ord := range []int{-1, 0, 1} {
+				ord := ord
+				env := &tableEnv{l: l, flag: map[string]int{}, cmp: func(a, b string) (int, bool) {
+					if a == "arg0.key" {
+						return ord, true
+					}
+					return 0, false
+				}}
+				env.ints = func(v ssa.Value, role string) (int64, bool) {
+					if strings.HasPrefix(role, "len(") {
+						if nonEmpty {
+							return 1, true
+						}
+						return 0, true
+					}
+					return 0, false
+				}
+				run := runTableS(af, env, func(call *ssa.Call) string {
+					if staticCallee(&call.Call) == nil {
+						if _, isB := call.Call.Value.(*ssa.Builtin); isB {
+							return ""
+						}
+						return valueName(call.Call.Value) + "(" + literalRoles(l, call.Call.Args[0], "") + ")"
+					}
+					return ""
+				}, func(st *ssa.Store) string {
+					if fv, ok := st.Addr.(*ssa.FreeVar); ok {
+						return fv.Name() + ":=" + roleOf(l, st.Val, "", 0)
+					}
+					return ""
+				})
+				fmt.Println("DIFF", i, nonEmpty, ord, strings.Join(run.events, " ; "), run.ret != nil)
+			}
+		}
+	}
+}
